@@ -24,7 +24,52 @@ Matches == /\ Len(hist') <= Len(T.ev)
 TShuffle == /\ pc = "SH" /\ Len(hist) < Len(T.ev)
             /\ LET e == T.ev[Len(hist) + 1] IN e.k = "SH" /\ ShuffleWith(e.perm, e.neg)
 
-TNext == /\ \/ Entry \/ TrainStart \/ TShuffle \/ EpochStart \/ BatchStart \/ Compute
+(* C06 numbers.  When a trace carries `x` (one record per batch, reals in 1e-6 fixed
+   point), the Compute / Assign / OptStep steps must also satisfy the contrastive-
+   divergence arithmetic: the gradient handed to the optimizer for the amplitude network
+   is the positive phase minus the effective-energy gradient of the k-step Gibbs states
+   divided by the negative batch size, the phase network gets the positive phase only,
+   every value lands on the parameter it belongs to, and plain SGD moves each parameter by
+   -lr * grad with the learning rate of the current scheduler epoch. *)
+HasX == "x" \in DOMAIN T
+X == T.x[pver + 1]
+AbsI(v) == IF v < 0 THEN -v ELSE v
+RECURSIVE Concat(_)
+Concat(ss) == IF ss = <<>> THEN <<>> ELSE Head(ss) \o Concat(Tail(ss))
+RECURSIVE Halve(_, _)
+Halve(v, n) == IF n = 0 THEN v ELSE Halve(v \div 2, n - 1)
+
+NumCompute ==
+    /\ Len(hist) < Len(T.ev) /\ pver + 1 <= Len(T.x)
+    /\ LET x == X
+           cg == T.ev[Len(hist) + 1] IN
+       /\ cg.k = "CG"
+       /\ x.k = T.k                                   \* k Gibbs steps ...
+       /\ x.ginit = cg.neg                            \* ... started from the negative batch
+       /\ x.nb = Len(cg.neg)
+       /\ Len(x.gradAm) = Len(x.posAm) /\ Len(x.negSum) = Len(x.posAm)
+       /\ \A i \in 1..Len(x.gradAm) :
+             AbsI(x.nb * x.gradAm[i] - (x.nb * x.posAm[i] - x.negSum[i])) <= x.nb + 1
+       /\ (Nets(cfg) = 2 => x.gradPh = x.posPh)       \* no negative phase for the phase network
+NumAssign ==
+    LET x == X IN
+    x.assigned[net] = (IF net = 1 THEN x.gradAm ELSE x.gradPh)
+NumStep ==
+    LET x == X IN
+    /\ \A n \in 1..Nets(cfg) :
+          /\ Concat(x.pgrad[n]) = x.assigned[n]     \* each slice is on the parameter it belongs to
+          /\ Len(x.pgrad[n]) = Len(x.shapes[n])
+          /\ \A j \in 1..Len(x.pgrad[n]) : Len(x.pgrad[n][j]) = x.shapes[n][j]
+          /\ \A j \in 1..Len(x.pgrad[n]) : \A i \in 1..Len(x.pgrad[n][j]) :
+                AbsI(x.dlr[n][j][i] - x.pgrad[n][j][i]) <= 2
+    /\ x.lr = (IF cfg.sched THEN Halve(T.lr0, sched) ELSE T.lr0)
+NumOK == HasX => CASE pc = "CG" -> NumCompute
+                   [] pc = "AS" -> NumAssign
+                   [] pc = "OS" -> NumStep
+                   [] OTHER -> TRUE
+
+TNext == /\ NumOK
+         /\ \/ Entry \/ TrainStart \/ TShuffle \/ EpochStart \/ BatchStart \/ Compute
             \/ ZeroGrad \/ Assign \/ OptStep \/ BatchEnd \/ SchedStep \/ EpochEnd \/ TrainEnd
          /\ Matches
          /\ UNCHANGED tid
